@@ -43,7 +43,7 @@ pub fn ctypes(chars: &[char]) -> Vec<u8> {
 /// Pools of characters per type, covering 1- to 4-byte encodings, the delimiters of the text
 /// formats, line breaks, grapheme-cluster material and keys of the normaliser table.
 pub const POOL_DIGIT: &[char] = &['0', '7', '9', '０', '５'];
-pub const POOL_ROMAN: &[char] = &['a', 'b', 'Z', 'ａ', 'Ｚ', 'x'];
+pub const POOL_ROMAN: &[char] = &['a', 'b', 'Z', 'ａ', 'Ｚ', 'x', 'z', 'A'];
 pub const POOL_HIRAGANA: &[char] = &['あ', 'い', 'の', 'は', 'ぁ', 'が', 'ぜ', 'ぼ'];
 pub const POOL_KATAKANA: &[char] = &['ア', 'イ', 'ー', 'ｱ', 'ﾟ', 'ヴ'];
 pub const POOL_KANJI: &[char] = &['人', '地', '球', '火', '𠮷', '𪜈', '㐀', '豈', '一', '中', '上'];
